@@ -752,3 +752,124 @@ impl Dual2 {
         self.clone().into()
     }
 }
+
+/// Verification hooks (compiled only with `--cfg rateslib_verif`): the Python-facing operator table of
+/// `Dual` / `Dual2`, callable from Rust. Each function forwards to the `#[pymethods]` item of the same
+/// name and reports a raised exception by its class name.
+#[cfg(rateslib_verif)]
+pub mod verif_hooks {
+    use super::*;
+
+    fn cls(e: PyErr) -> String {
+        Python::with_gil(|py| {
+            if e.is_instance_of::<PyTypeError>(py) {
+                "TypeError".to_string()
+            } else if e.is_instance_of::<PyValueError>(py) {
+                "ValueError".to_string()
+            } else {
+                "Exception".to_string()
+            }
+        })
+    }
+
+    macro_rules! table {
+        ($T:ty, $binop:ident, $cmp:ident, $unary:ident, $float:ident, $pickle:ident) => {
+            pub fn $binop(name: &str, a: &$T, other: Number) -> Result<$T, String> {
+                match name {
+                    "__add__" => a.__add__(other),
+                    "__radd__" => a.__radd__(other),
+                    "__sub__" => a.__sub__(other),
+                    "__rsub__" => a.__rsub__(other),
+                    "__mul__" => a.__mul__(other),
+                    "__rmul__" => a.__rmul__(other),
+                    "__truediv__" => a.__truediv__(other),
+                    "__rtruediv__" => a.__rtruediv__(other),
+                    "__pow__" => a.__pow__(other, None),
+                    _ => Err(PyValueError::new_err("unknown operator")),
+                }
+                .map_err(cls)
+            }
+            pub fn $cmp(name: &str, a: &$T, other: Number) -> Result<bool, String> {
+                match name {
+                    "__eq__" => a.__eq__(other),
+                    "__lt__" => a.__lt__(other),
+                    "__le__" => a.__le__(other),
+                    "__gt__" => a.__gt__(other),
+                    "__ge__" => a.__ge__(other),
+                    _ => Err(PyValueError::new_err("unknown comparison")),
+                }
+                .map_err(cls)
+            }
+            pub fn $unary(name: &str, a: &$T) -> Result<$T, String> {
+                match name {
+                    "__neg__" => Ok(a.__neg__()),
+                    "__exp__" => Ok(a.__exp__()),
+                    "__abs__" => Ok(a.__abs__()),
+                    "__log__" => Ok(a.__log__()),
+                    "__norm_cdf__" => Ok(a.__norm_cdf__()),
+                    "__norm_inv_cdf__" => Ok(a.__norm_inv_cdf__()),
+                    _ => Err("unknown function".to_string()),
+                }
+            }
+            pub fn $float(a: &$T) -> f64 {
+                a.__float__()
+            }
+            /// `__getstate__` then `__setstate__` on another object, as `pickle` does after `__new__`.
+            pub fn $pickle(a: &$T, onto: &mut $T) -> Result<(), String> {
+                Python::with_gil(|py| {
+                    let state = a.__getstate__(py).map_err(cls)?;
+                    onto.__setstate__(state).map_err(cls)
+                })
+            }
+        };
+    }
+    table!(
+        Dual,
+        dual_binop,
+        dual_cmp,
+        dual_unary,
+        dual_float,
+        dual_pickle
+    );
+    table!(
+        Dual2,
+        dual2_binop,
+        dual2_cmp,
+        dual2_unary,
+        dual2_float,
+        dual2_pickle
+    );
+
+    pub fn dual_new(real: f64, vars: Vec<String>, dual: Vec<f64>) -> Result<Dual, String> {
+        Dual::new_py(real, vars, dual).map_err(cls)
+    }
+    pub fn dual2_new(
+        real: f64,
+        vars: Vec<String>,
+        dual: Vec<f64>,
+        dual2: Vec<f64>,
+    ) -> Result<Dual2, String> {
+        Dual2::new_py(real, vars, dual, dual2).map_err(cls)
+    }
+    pub fn dual_newargs(a: &Dual) -> Result<(f64, Vec<String>, Vec<f64>), String> {
+        a.__getnewargs__().map_err(cls)
+    }
+    pub fn dual2_newargs(a: &Dual2) -> Result<(f64, Vec<String>, Vec<f64>, Vec<f64>), String> {
+        a.__getnewargs__().map_err(cls)
+    }
+    pub fn dual_to_dual2(a: &Dual) -> Dual2 {
+        a.to_dual2_py()
+    }
+    pub fn dual2_to_dual(a: &Dual2) -> Dual {
+        a.to_dual_py()
+    }
+    pub fn dual_to_json(a: &Dual) -> Result<String, String> {
+        a.to_json_py().map_err(cls)
+    }
+    pub fn dual2_to_json(a: &Dual2) -> Result<String, String> {
+        a.to_json_py().map_err(cls)
+    }
+    pub fn adorder_new(ad: u8) -> Result<ADOrder, String> {
+        ADOrder::new_py(ad).map_err(cls)
+    }
+}
